@@ -88,14 +88,17 @@ class SRP:
             raise CouldNotParseKNXIP("Data too short for SRP object.")
 
         size: int = data[0]
-        if size > len(data):
-            raise CouldNotParseKNXIP("SRP is larger than actual data size.")
+        if size > len(data) or size < SRP.SRP_HEADER_SIZE:
+            raise CouldNotParseKNXIP("SRP has wrong size.")
 
-        return SRP(
-            srp_type=SearchRequestParameterType(data[1] & 0x7F),
-            mandatory=bool(data[1] >> SRP.MANDATORY_BIT_INDEX),
-            data=data[2:size],
-        )
+        try:
+            return SRP(
+                srp_type=SearchRequestParameterType(data[1] & 0x7F),
+                mandatory=bool(data[1] >> SRP.MANDATORY_BIT_INDEX),
+                data=data[2:size],
+            )
+        except (ValueError, ConversionError) as err:
+            raise CouldNotParseKNXIP("SRP has unsupported type or payload.") from err
 
     @staticmethod
     def with_programming_mode() -> SRP:
